@@ -8,7 +8,7 @@ SPEC = {
                  'assignment of hits to sets; counting oracle written over pairwise z3 terms; per-path unsat',
     'bounds': {'quick': 'tables of <= 3 hits, <= 2 ceilometers, <= 3 sets, any times/heights/types, MAX_HITS_OKTA0 and '
                         'MAX_HOLES_OKTA8 any non-negative ints; binning for larger totals through C18',
-               'thorough': 'tables of <= 4 hits (5 for one ceilometer), <= 3 ceilometers'},
+               'thorough': 'tables of <= 4 hits on <= 2 ceilometers, 3 hits on 3 ceilometers'},
     'outside': 'totals above the row bound other than through C18 (perc2okta for all n <= m); NaN time stamps',
     'budget_s': {'quick': 900, 'thorough': 3000},
 }
@@ -20,7 +20,7 @@ def h_amount(E, N, C, which):
 
 HARNESSES = [
     H('H-amount', h_amount, quick=[(1, 1, 'layers'), (2, 2, 'layers'), (3, 2, 'layers'), (2, 2, 'slices'), (2, 2, 'groups')],
-      thorough=[(n, c, 'layers') for n in (1, 2, 3, 4) for c in (1, 2, 3) if c <= n] + [(3, 2, 'slices'), (3, 2, 'groups'), (5, 1, 'layers')],
+      thorough=[(1, 1, 'layers'), (2, 2, 'layers'), (3, 2, 'layers'), (3, 3, 'layers'), (4, 1, 'layers'), (4, 2, 'layers'), (3, 2, 'slices'), (3, 2, 'groups')],
       float_model='R',
       cover=['two hits of one measurement in one set', 'coincident time stamps on two ceilometers', 'okta 0 by the buffer',
              'okta 8 by the buffer', 'okta from the binning'],
